@@ -30,7 +30,9 @@ Record robs := mkRobs {
 
 Inductive case :=
 | CDirect (cfg : config) (init : state) (ops : list dop) (obs : list dobs)
-| CRun (cfg : config) (init : state) (batches : list (list (rrequest * behaviour))) (obs : list robs).
+| CRun (cfg : config) (init : state) (batches : list (bool * list (rrequest * behaviour)))
+       (obs : list robs).
+    (* every batch says whether a receiver is subscribed to the account stream while it runs *)
     (* every request carries the client's behaviour towards its response; a response that is not
        awaited is recorded as [(None, POffline)] *)
 
@@ -148,21 +150,22 @@ Definition expected_resps (brqs : list (rrequest * bool)) (resps : list rresp)
   map (fun x : (rrequest * bool) * rresp =>
          if snd (fst x) then (echo_of (fst (fst x)), snd x) else (None, POffline))
       (combine brqs resps).
-Definition aw_of (cfg : config) (brqs : list (rrequest * behaviour)) : list (rrequest * bool) :=
-  map (fun rb => (fst rb, awaited cfg (snd rb))) brqs.
+Definition aw_of (cfg : config) (sb : bool * list (rrequest * behaviour))
+  : bool * list (rrequest * bool) :=
+  (fst sb, map (fun rb => (fst rb, awaited cfg (snd rb))) (snd sb)).
 
-Fixpoint corr_run (cfg : config) (ost : option state) (bs : list (list (rrequest * bool)))
+Fixpoint corr_run (cfg : config) (ost : option state) (bs : list (bool * list (rrequest * bool)))
   (os : list robs) : bool :=
   match bs, os with
   | [], [] => true
-  | brqs :: bs', o :: os' =>
+  | (sub, brqs) :: bs', o :: os' =>
     let rqs := map fst brqs in
     let '(ost1, out) := run cfg ost rqs in
     (* the two follow-up queries only re-apply the time of the last request *)
     let ost2 := option_map (fun st => tick cfg st (last_time rqs 0%Z)) ost1 in
     list_eqb (pair_eqb (option_eqb request_eqb) rresp_eqb)
              (expected_resps brqs (map fst out)) (ro_resps o)
-    && events_eqb (flat_map snd out) (ro_events o)
+    && events_eqb (if sub then flat_map snd out else []) (ro_events o)
     && snap_matches ost2 (ro_snap o) (ro_trades o) && ro_ok o
     && corr_run cfg ost2 bs' os'
   | _, _ => false
@@ -189,6 +192,13 @@ Fixpoint nodup_keys (l : list N) : bool :=
   | k :: t => negb (existsb (N.eqb k) t) && nodup_keys t
   end.
 
+(** while nobody is subscribed the oracle learns an order's id and fill time from its response
+    only, so open-order responses are awaited in such batches *)
+Definition batch_ok (sb : bool * list (rrequest * bool)) : bool :=
+  fst sb || forallb (fun rb : rrequest * bool =>
+                       snd rb || match rq_kind (fst rb) with KOpen _ => false | _ => true end)
+                    (snd sb).
+
 Definition in_domain (c : case) : bool :=
   match c with
   | CDirect cfg init ops _ =>
@@ -196,7 +206,9 @@ Definition in_domain (c : case) : bool :=
       && Qc_leb 0%Qc (c_fee cfg) && forallb dop_in_domain ops
   | CRun cfg init bs _ =>
       wf_state cfg init && nodup_keys (map fst (s_bals init))
-      && Qc_leb 0%Qc (c_fee cfg) && forallb req_in_domain (opens_of (map fst (concat bs)))
+      && Qc_leb 0%Qc (c_fee cfg)
+      && forallb req_in_domain (opens_of (map fst (concat (map snd bs))))
+      && forallb batch_ok (map (aw_of cfg) bs)
   end.
 
 (* ---- prop_b: oracle on the observed behaviour -------------------------------------------------- *)
@@ -271,10 +283,31 @@ Definition oracle_open_blind (cfg : config) (o : ostate) (req : request)
      then match nt with [t] => ROpen (t_id t) 0%Z (r_qty req) | _ => RErr EKind end
      else RErr EKind) nb nt.
 
+(** an order placed while nobody listens to the account stream: what would have been announced
+    is reconstructed from the response (id, exchange time) and the ledger specification, and
+    checked like a real announcement — the ledger, the ids and the stored fills must not depend
+    on subscribers *)
+Definition synth_notifs (cfg : config) (o : ostate) (req : request) (res : result)
+  : list (N * bal) * list trade :=
+  match res, spec_spent cfg req with
+  | ROpen id t _, Some a =>
+    match spec_step cfg (os_led o) req a with
+    | Some x =>
+      ([(a, mkBal x x t)],
+       [mkTrade id id (r_instr req) (r_strategy req) t (r_side req) (r_price req) (r_qty req)
+                (spec_fees (c_fee cfg) req)])
+    | None => ([], [])
+    end
+  | _, _ => ([], [])
+  end.
+Definition oracle_open_nosub (cfg : config) (o : ostate) (req : request) (res : result)
+  : option ostate :=
+  oracle_open cfg o req res (fst (synth_notifs cfg o req res)) (snd (synth_notifs cfg o req res)).
+
 (** the requests of one batch against their responses; an accepted order owns the next two
     events of the account stream (one balance, one trade, in any order), a rejected one none —
     whether or not the client waited for the response *)
-Fixpoint prop_batch (cfg : config) (o : ostate) (brqs : list (rrequest * bool))
+Fixpoint prop_batch (cfg : config) (sub : bool) (o : ostate) (brqs : list (rrequest * bool))
   (rs : list (option request * rresp)) (es : list event) : option (ostate * list event) :=
   match brqs, rs with
   | [], [] => Some (o, es)
@@ -282,38 +315,47 @@ Fixpoint prop_batch (cfg : config) (o : ostate) (brqs : list (rrequest * bool))
     if aw then
       match rq_kind rq, resp with
       | KOpen req, POpen res =>
-        let k := if accepted res then 2%nat else 0%nat in
-        match oracle_open cfg o req res (ev_bals (firstn k es)) (ev_trades (firstn k es)) with
-        | Some o' => prop_batch cfg o' rqs' rs' (skipn k es)
-        | None => None
-        end
+        if sub then
+          let k := if accepted res then 2%nat else 0%nat in
+          match oracle_open cfg o req res (ev_bals (firstn k es)) (ev_trades (firstn k es)) with
+          | Some o' => prop_batch cfg sub o' rqs' rs' (skipn k es)
+          | None => None
+          end
+        else
+          match oracle_open_nosub cfg o req res with
+          | Some o' => prop_batch cfg sub o' rqs' rs' es
+          | None => None
+          end
       | KOpen _, _ => None
       | KSnapshot, PSnapshot bals _ _ | KBalances, PBalances bals =>
-        if ledger_is o bals then prop_batch cfg o rqs' rs' es else None
+        if ledger_is o bals then prop_batch cfg sub o rqs' rs' es else None
       | KTrades since, PTrades ts =>
         if trades_eqb (filter (fun t => Z.leb since (t_time t)) (os_fills o)) ts
-        then prop_batch cfg o rqs' rs' es else None
-      | KOrdersOpen, POrders _ | KCancel, _ => prop_batch cfg o rqs' rs' es
+        then prop_batch cfg sub o rqs' rs' es else None
+      | KOrdersOpen, POrders _ | KCancel, _ => prop_batch cfg sub o rqs' rs' es
       | _, _ => None
       end
     else
       match rq_kind rq with
       | KOpen req =>
-        let k := if spec_accepts cfg (os_led o) req then 2%nat else 0%nat in
-        match oracle_open_blind cfg o req (ev_bals (firstn k es)) (ev_trades (firstn k es)) with
-        | Some o' => prop_batch cfg o' rqs' rs' (skipn k es)
-        | None => None
-        end
-      | _ => prop_batch cfg o rqs' rs' es
+        if sub then
+          let k := if spec_accepts cfg (os_led o) req then 2%nat else 0%nat in
+          match oracle_open_blind cfg o req (ev_bals (firstn k es)) (ev_trades (firstn k es)) with
+          | Some o' => prop_batch cfg sub o' rqs' rs' (skipn k es)
+          | None => None
+          end
+        else None     (* outside the input requirement: [batch_ok] *)
+      | _ => prop_batch cfg sub o rqs' rs' es
       end
   | _, _ => None
   end.
 
-Fixpoint prop_run (cfg : config) (o : ostate) (bs : list (list (rrequest * bool))) (os : list robs) : bool :=
+Fixpoint prop_run (cfg : config) (o : ostate) (bs : list (bool * list (rrequest * bool)))
+  (os : list robs) : bool :=
   match bs, os with
   | [], [] => true
-  | rqs :: bs', ob :: os' =>
-    match prop_batch cfg o rqs (ro_resps ob) (ro_events ob) with
+  | (sub, rqs) :: bs', ob :: os' =>
+    match prop_batch cfg sub o rqs (ro_resps ob) (ro_events ob) with
     | Some (o', []) =>
       match ro_snap ob, ro_trades ob with
       | Some (bals, _, _), Some ts =>
